@@ -4,7 +4,7 @@
    The source works with indices into s and an enumerate iterator; the model with suffixes of s.  [it_at s t] is the iterator
    whose remaining text is the suffix t, [pos s t] the index of the first character of t. *)
 From Coq Require Import List NArith ZArith Bool Lia.
-From I18n Require Import Lib.Outcome Model.FmtPython Model.FmtPythonPy Generated.FmtPythonSrc Proofs.FmtPythonSrc.
+From I18n Require Import Lib.Outcome Model.FmtPython Model.FmtPythonPy Generated.FmtPythonSrc Proofs.FmtPythonSrc Proofs.FmtPython.
 Import ListNotations.
 Local Open Scope N_scope.
 
@@ -335,7 +335,7 @@ Proof.
   intros HF. induction fuel as [|fuel IH]; intros t st i0 Hst; [reflexivity|].
   cbn [src_FormatString_init_while1 ploop].
   destruct t as [|ch r]; [reflexivity|]. sat.
-  rewrite enum_next_at by lens.
+  rewrite enum_next_at by lens. rewrite ?(N.eqb_sym 37 ch).
   destruct (ch =? 37) eqn:Hpc; cbn [negb]; [|apply IH; assumption].
   apply N.eqb_eq in Hpc; subst ch.
   unfold parse_directive, p_key, p_width, p_prec, p_length.
@@ -469,4 +469,20 @@ Proof.
     destruct (ploop inf (S (length s)) s st0) as [st|e|cr]; try destruct e; try destruct cr;
     cbn [of_out obind] in H |- *; try discriminate H; inversion H; subst; try reflexivity.
   rewrite src_for6_eq. destruct (existsb (fun kv => mixed_types (snd kv)) (st_map st)); reflexivity.
+Qed.
+
+(* a property of the model read on the translated code: with today's tables the translated constructor ends normally or raises one
+   of the module's own error classes, never an AssertionError, a foreign exception or FFuel (from own_errors) *)
+Definition own_class (k : fcls) : Prop :=
+  match k with
+  | KError | KForbiddenArgumentKey | KArgumentIndexingMixture | KArgumentTypeMismatch | KWidthRangeError | KPrecisionRangeError => True
+  | _ => False
+  end.
+Theorem src_formatstring_init_own_errors s :
+  match src_FormatString_init std_info (S (length s)) s with
+  | FOk _ => True | FRaise k _ => own_class k | FAssert | FFuel => False
+  end.
+Proof.
+  rewrite src_formatstring_init_eq. pose proof (own_errors s) as H.
+  destruct (fmtpy_parse std_info s) as [sg|e|c]; [exact I|destruct e; exact I|exfalso; exact (H c eq_refl)].
 Qed.
